@@ -11,7 +11,8 @@ use serde_json::{json, Value};
 pub const CHECK: Check = Check { id: "C01", level: "exploration", flavours: &["scaled", "prod"], run, replay };
 
 const RULE: &str = "cases = generated writer programs (files x pieces x interleaving x layers x level x recipients x 0..4 flush() calls between \
-the other calls x 8 histories of configuration calls reaching the same configuration), \
+the other calls x 8 histories of configuration calls reaching the same configuration; a quarter of the pieces come from a source \
+that holds 300 000 more bytes than the announced size), \
 executed through ArchiveWriter and read back with ArchiveReader using one recipient key among decoys; oracle = \
 in-memory model (names, bytes, size, SHA-256). Non-trivial = program with >= 2 files one of which has >= 2 \
 non-contiguous runs, or with a piece end / file end / stream end within +-1 of an encryption-chunk or \
